@@ -32,10 +32,12 @@ Arg(i) == Rec[l].a[i]
 NoPend == [t \in {} |-> 0]
 
 \* every step moves the cursor and lets the reads in flight see the new state
+GetNext(x) == IF covl'[x].cid # 0 THEN covl'[x].v
+              ELSE IF lovl'[x].rid # 0 THEN Vis(lovl'[x].e) ELSE Vis(tabs'[x])
 Advance ==
     /\ l' = l + 1
     /\ pend' = [t \in DOMAIN pend |->
-                  [pend[t] EXCEPT !.vals = @ \cup {Get(pend[t].loc)'}]]
+                  [pend[t] EXCEPT !.vals = @ \cup {GetNext(pend[t].loc)}]]
 
 Stutter == UNCHANGED vars
 
@@ -127,7 +129,7 @@ TEndRecord ==
            /\ nextRid' = nextRid + 1
            /\ logs' = AppendRec([rid |-> nextRid, h |-> 0, cid |-> 0, w |-> <<>>])
            /\ UNCHANGED <<hist, logical, calls, queue, nextCid, covl, lw, rpos, lovl, cw, lastEnacted,
-                          tabs, dtabs, flushedCq, durable, mode, rcv, ncrash, naux, lastRec, trace>>)
+                          tabs, dtabs, flushedCq, durable, mode, rcv, ncrash, naux, lastRec, rdr, trace>>)
     /\ Advance /\ UNCHANGED closed
 
 TCleanCovl ==
@@ -170,7 +172,7 @@ TEnactEnd ==
     /\ lastEnacted' = cw.rec.rid
     /\ cw' = [cw EXCEPT !.pc = "written", !.todo = {}]
     /\ UNCHANGED <<hist, logical, calls, queue, nextCid, covl, lw, nextRid, logs, rpos, lovl,
-                   dtabs, flushedCq, durable, mode, rcv, ncrash, naux, lastRec, trace>>
+                   dtabs, flushedCq, durable, mode, rcv, ncrash, naux, lastRec, rdr, trace>>
     /\ Advance /\ UNCHANGED closed
 
 TEndRead ==
@@ -192,7 +194,7 @@ TTablesFlushed ==
     /\ IF mode = "open" /\ NumCq > flushedCq THEN FlushTables
        ELSE IF mode = "open"
        THEN dtabs' = tabs /\ UNCHANGED <<hist, logical, calls, queue, nextCid, covl, lw, nextRid, logs, rpos, lovl, cw,
-                   lastEnacted, tabs, flushedCq, durable, mode, rcv, ncrash, naux, lastRec, trace>>
+                   lastEnacted, tabs, flushedCq, durable, mode, rcv, ncrash, naux, lastRec, rdr, trace>>
        ELSE Stutter
     /\ Advance /\ UNCHANGED closed
 
@@ -217,7 +219,7 @@ TClosed ==
     /\ closed' = TRUE
     /\ rcv' = [rcv EXCEPT !.any = FALSE]
     /\ UNCHANGED <<hist, logical, calls, queue, nextCid, covl, lw, nextRid, logs, rpos, lovl, cw, lastEnacted,
-                   tabs, dtabs, flushedCq, durable, mode, ncrash, naux, lastRec, trace>>
+                   tabs, dtabs, flushedCq, durable, mode, ncrash, naux, lastRec, rdr, trace>>
     /\ Advance
 
 \* replay inside Db::open after a clean close
@@ -228,7 +230,7 @@ TClosedReplay ==
     /\ IF Rec[l].e = "EnactEnd"
        THEN /\ lastEnacted' = Arg(1) /\ rcv' = [rcv EXCEPT !.any = TRUE]
             /\ UNCHANGED <<hist, logical, calls, queue, nextCid, covl, lw, nextRid, logs, rpos, lovl, cw, tabs, dtabs,
-                           flushedCq, durable, mode, ncrash, naux, lastRec, trace>>
+                           flushedCq, durable, mode, ncrash, naux, lastRec, rdr, trace>>
        ELSE Stutter
     /\ Advance /\ UNCHANGED closed
 
@@ -242,7 +244,7 @@ TReopened ==
     /\ lastEnacted' = IF rcv.any THEN lastEnacted ELSE 1
     /\ nextCid' = 0
     /\ durable' = Len(hist)
-    /\ UNCHANGED <<hist, logical, calls, queue, lw, cw, mode, rcv, ncrash, naux, lastRec, trace>>
+    /\ UNCHANGED <<hist, logical, calls, queue, lw, cw, mode, rcv, ncrash, naux, lastRec, rdr, trace>>
     /\ Advance
 
 \* the process died here (the harness took the image at this point of the event stream)
@@ -253,7 +255,7 @@ TCrash ==
     /\ flushedCq' = 0 /\ rpos' = 0
     /\ rcv' = [f |-> 0, r |-> 0, any |-> FALSE]
     /\ closed' = FALSE
-    /\ UNCHANGED <<hist, logical, calls, nextRid, logs, lastEnacted, tabs, dtabs, durable, ncrash, naux, lastRec, trace>>
+    /\ UNCHANGED <<hist, logical, calls, nextRid, logs, lastEnacted, tabs, dtabs, durable, ncrash, naux, lastRec, rdr, trace>>
     /\ Advance
 
 \* events of the replay inside Db::open of the image
@@ -262,7 +264,7 @@ TReplayEnact ==
     /\ lastEnacted' = Arg(1)
     /\ rcv' = [rcv EXCEPT !.any = TRUE]
     /\ UNCHANGED <<hist, logical, calls, queue, nextCid, covl, lw, nextRid, logs, rpos, lovl, cw, tabs, dtabs,
-                   flushedCq, durable, mode, ncrash, naux, lastRec, trace>>
+                   flushedCq, durable, mode, ncrash, naux, lastRec, rdr, trace>>
     /\ Advance /\ UNCHANGED closed
 
 TReplayOther ==
@@ -293,7 +295,7 @@ TRecovered ==
     /\ nextRid' = IF rcv.any THEN lastEnacted + 1 ELSE 1
     /\ lastEnacted' = IF rcv.any THEN lastEnacted ELSE 1
     /\ mode' = "open"
-    /\ UNCHANGED <<calls, queue, nextCid, covl, lw, rpos, lovl, cw, flushedCq, rcv, ncrash, naux, trace>>
+    /\ UNCHANGED <<calls, queue, nextCid, covl, lw, rpos, lovl, cw, flushedCq, rcv, ncrash, naux, rdr, trace>>
     /\ Advance /\ UNCHANGED closed
 
 \* injected background error (store_err)
@@ -301,7 +303,7 @@ TStoreErr ==
     /\ IsEvent("StoreErr") /\ mode = "open"
     /\ mode' = "err"
     /\ UNCHANGED <<hist, logical, calls, queue, nextCid, covl, lw, nextRid, logs, rpos, lovl, cw, lastEnacted,
-                   tabs, dtabs, flushedCq, durable, rcv, ncrash, naux, lastRec, trace>>
+                   tabs, dtabs, flushedCq, durable, rcv, ncrash, naux, lastRec, rdr, trace>>
     /\ Advance /\ UNCHANGED closed
 
 \* events without a counterpart in this module (worker protocol, locks)
